@@ -381,6 +381,30 @@ func c19Partial(ev *evidence.Run, tier string) {
 		ops = quickMutOps
 	}
 	gen := func(emit func(progenum.Prog)) {
+		// (i) files that do not parse completely: hand-written partial-AST shapes ...
+		for i, src := range c19Broken {
+			emit(progenum.Prog{ID: fmt.Sprintf("broken|%d", i), Fam: "broken", Path: "vpkg", Files: []harness.File{{Name: "f.go", Src: "package vpkg\n\n" + src + "\n"}}})
+		}
+		// ... and every line-prefix of every example file (each cut is a different incomplete construct)
+		step := 1
+		if tier == "quick" {
+			step = 4
+		}
+		testdataProgs(func(p progenum.Prog) {
+			for fi, f := range p.Files {
+				lines := strings.Split(f.Src, "\n")
+				for k := 3; k < len(lines); k += step {
+					nf := make([]harness.File, len(p.Files))
+					copy(nf, p.Files)
+					nf[fi] = harness.File{Name: f.Name, Src: strings.Join(lines[:k], "\n") + "\n"}
+					cand := progenum.Prog{ID: fmt.Sprintf("truncated|%s|%s|%d", p.Meta["checker"], f.Name, k), Fam: "truncated", Path: p.Path, Files: nf, Meta: p.Meta}
+					if !harness.Precheck(cand.Path, cand.Files) {
+						emit(cand)
+					}
+				}
+			}
+		})
+		// (ii) ill-typed 1-deviation variants of the examples
 		mutantProgs(ops, nil)(func(p progenum.Prog) {
 			if !harness.Precheck(p.Path, p.Files) { // keep only the ill-typed ones (well-typed are C01's subject)
 				emit(p)
@@ -389,4 +413,52 @@ func c19Partial(ev *evidence.Run, tier string) {
 	}
 	runCorpus(gen, runOpts{allowErrors: func(*progenum.Prog) bool { return true }}, handle)
 	ev.Set("partially_typed_packages_analysed", n)
+}
+
+// hand-written sources that go/parser accepts only partially (BadExpr/BadDecl/nil fields, empty lists)
+var c19Broken = []string{
+	"import foo",
+	"import (\n\tfoo\n\t\"fmt\"\n)",
+	"import \"fmt\"\nimport bar baz",
+	"func () F() {}",
+	"func (a, b T) M() {}\ntype T struct{}",
+	"func (T) () {}",
+	"func F( {",
+	"func F() {\n\tx :=\n}",
+	"func F() {\n\tif {\n\t}\n}",
+	"func F() {\n\tfor i := range {\n\t}\n}",
+	"func F() {\n\tswitch x := .(type) {\n\t}\n}",
+	"func F() {\n\tswitch {\n\tcase :\n\t}\n}",
+	"func F() {\n\tdefer\n\tgo\n}",
+	"func F() {\n\treturn ,\n}",
+	"func F() {\n\tx := []int{1, , 2}\n\t_ = x\n}",
+	"func F() {\n\tx := map[string]int{\"a\": , \"a\": 1}\n\t_ = x\n}",
+	"func F() {\n\tappend()\n\tx := append(\n}",
+	"func F() {\n\t_ = *new(\n}",
+	"func F(xs []int) {\n\tsort.Slice(xs, func(i, j int) bool { return })\n}",
+	"func F() {\n\tregexp.MustCompile(\n}",
+	"type T struct {\n\ta\n\tb int\n\t*\n}",
+	"type T interface {\n\tM(\n}",
+	"type",
+	"type T",
+	"type ( T )",
+	"var x =",
+	"var (\n\tx int =\n\ty\n)",
+	"const c",
+	"x := 1",
+	"func F() {\n\tL:\n}",
+	"func F() {\n\tgoto\n\tbreak L\n}",
+	"func F[T any(x T) {}",
+	"func F[](x int) {}",
+	"func F() {\n\tvar f func(\n\t_ = f\n}",
+	"func F() {\n\tselect {\n\tcase <-:\n\tcase x := :\n\t}\n}",
+	"func F() {\n\tx.()\n\tx.(\n}",
+	"func F() (int, {\n\treturn 1\n}",
+	"func F() {\n\t_ = func( {\n\t}\n}",
+	"func F() {\n\t_ = struct{ a int }{a: }\n}",
+	"func F() {\n\tfmt.Sprintf(\n\tstrings.Index(s, )\n}",
+	"// Deprecated\nfunc",
+	"/* unterminated",
+	"func F() {\n\t\"unterminated\n}",
+	"func F() {\n\t_ = 0x\n\t_ = 0o8\n\t_ = 1__2\n}",
 }
